@@ -273,6 +273,29 @@ def seed_rules(an: Analysis, rep):
                 f"the decoder ranks the parameters in the order {dec_order} (signature order), the encoder pre-assigns the local slots in the order {enc_order} (co_varnames layout: "
                 f"keyword-only names come before *args): for a function with *args and a keyword-only parameter the ranks differ from the slots, so those parameters decode with a "
                 f"redundant position override")
+    # only the table of locals is pre-filled by the encoder (the parameters) - and slot 0 of the constants through the docstring rule above: a decoder table
+    # constructed with pre-marked entries for any other code attribute ranks its entries differently from the encoder
+    ci_t, _rank_m, _unref_m = find_decoder_table(an)
+    for g3 in an.closure("from_code"):
+        for c in ast.walk(g3.node):
+            if not (isinstance(c, ast.Call) and isinstance(c.func, ast.Name) and c.func.id == ci_t.name and c.args):
+                continue
+            seeded = len(c.args) > 1 or any(k.arg == mapattr for k in c.keywords)
+            if not seeded:
+                continue
+            attrs = set()
+            for a in it_dec.value_at(c.args[0]):
+                for o in it_dec.origins(frozenset([a])):
+                    if o[0] == "src" and o[2]:
+                        attrs |= {stp[1] for stp in o[2] if stp[0] == "a" and str(stp[1]).startswith("co_")}
+            if not attrs:
+                raise AnalysisError(f"{g3.qual}: which code attribute the pre-marked table `{norm_src(c.args[0])}` holds is not recognised")
+            okattr = attrs <= {"co_varnames"}
+            rep.add("R09.2", f"{g3.qual}::only the table of locals is constructed with pre-marked entries ({sorted(attrs)[0]})", okattr, loc(g3.module, c),
+                    "the pre-marked table is co_varnames, which the encoder pre-fills with the parameters" if okattr else
+                    f"`{norm_src(c)[:80]}` pre-marks entries of {sorted(attrs)} as already met; the encoder pre-assigns nothing in that table, it numbers the entries in order of first use: "
+                    f"an entry used before a pre-marked one gets a rank that differs from its position - a position override although the table is in first-use order "
+                    f"(`def f(p): a = 1; return lambda: (a, p)`)")
     rep.add("R09.2", "parameter seeds cover the same slots on both sides", dec_fields == enc_fields, dec_where,
             f"decoder pre-marks len({dec_fields}) leading local slots, the encoder pre-assigns exactly those" if dec_fields == enc_fields
             else f"decoder pre-marks the slots of {dec_fields}, encoder pre-assigns {enc_fields}")
